@@ -19,8 +19,23 @@ const STRATEGIES: [(GenerationStrategy, &str); 3] =
     [(GenerationStrategy::Sequential, "sequential"), (GenerationStrategy::Interleaved, "interleaved"), (GenerationStrategy::Weighted, "weighted")];
 const SEEDS: u64 = 8;
 
+/// which items of the sources are error items (an error item is an item of its source like any other)
+static ERR_PATTERN: std::sync::atomic::AtomicUsize = std::sync::atomic::AtomicUsize::new(0);
+const ERR_PATTERNS: [&str; 6] = ["none", "first item of every source", "last item of every source", "every item", "every second item", "every item of the odd sources"];
+
+fn is_err(si: usize, k: usize, len: usize) -> bool {
+    match ERR_PATTERN.load(std::sync::atomic::Ordering::Relaxed) {
+        0 => false,
+        1 => k == 0,
+        2 => k + 1 == len,
+        3 => true,
+        4 => k % 2 == 1,
+        _ => si % 2 == 1,
+    }
+}
+
 fn case_json(lens: &[usize], strategy: usize, seed: u64) -> Value {
-    json!({"lengths": lens, "strategy": STRATEGIES[strategy].1, "seed": seed})
+    json!({"lengths": lens, "strategy": STRATEGIES[strategy].1, "seed": seed, "error_items": ERR_PATTERNS[ERR_PATTERN.load(std::sync::atomic::Ordering::Relaxed)]})
 }
 
 /// what one `next()` returned: the item's (input, target) or the error text, and the source tag
@@ -36,7 +51,8 @@ struct Trace {
 }
 
 fn source(si: usize, len: usize) -> TrainDataGenerator {
-    let v: Vec<MaybeTrainData> = (0..len).map(|k| Ok(TrainData::new(format!("s{si}i{k}"), Some(format!("t{si}i{k}"))))).collect();
+    let v: Vec<MaybeTrainData> =
+        (0..len).map(|k| if is_err(si, k, len) { Err(anyhow::anyhow!("es{si}i{k}")) } else { Ok(TrainData::new(format!("s{si}i{k}"), Some(format!("t{si}i{k}")))) }).collect();
     Box::new(v.into_iter())
 }
 
@@ -163,7 +179,12 @@ fn check(run: &mut Run, lens: &[usize], strategy: usize, seed: u64) -> Option<Ve
     let mut per = vec![0usize; lens.len()];
     let (mut bad_tag, mut bad_order, mut unknown) = (None, None, None);
     for (pos, (d, tag)) in t.items.iter().enumerate() {
-        match d.as_ref().ok().and_then(parse) {
+        // (an error item carries its source and position in its text)
+        let parsed = match d {
+            Ok(item) => parse(item).filter(|(s, k)| *s < lens.len() && *k < lens[*s] && !is_err(*s, *k, lens[*s])),
+            Err(e) => e.strip_prefix('e').and_then(|r| parse(&(r.to_string(), r.replacen('s', "t", 1)))).filter(|(s, k)| *s < lens.len() && *k < lens[*s] && is_err(*s, *k, lens[*s])),
+        };
+        match parsed {
             Some((s, k)) if s < lens.len() && k < lens[s] => {
                 if *tag != s && bad_tag.is_none() {
                     bad_tag = Some(pos);
@@ -191,7 +212,7 @@ fn check(run: &mut Run, lens: &[usize], strategy: usize, seed: u64) -> Option<Ve
             "exactly-once",
             "",
             case(),
-            format!("items yielded per source {per:?}, source lengths {lens:?}{}: {}", unknown.map(|p| format!(", output {p} is an error or not an item of any source")).unwrap_or_default(), show(&t.items)),
+            format!("items yielded per source {per:?}, source lengths {lens:?}{}: {}", unknown.map(|p| format!(", output {p} is not an item of any source")).unwrap_or_default(), show(&t.items)),
         );
     }
     // strategy order
@@ -234,6 +255,7 @@ fn main() {
     let mut run = Run::from_env("C07");
     if let Some(c) = run.replay_case() {
         let lens: Vec<usize> = c["lengths"].as_array().unwrap().iter().map(|x| x.as_u64().unwrap() as usize).collect();
+        ERR_PATTERN.store(c["error_items"].as_str().and_then(|n| ERR_PATTERNS.iter().position(|p| *p == n)).unwrap_or(0), std::sync::atomic::Ordering::Relaxed);
         // a violated determinism clause may show only with some probability: repeat (16 times at most)
         for _ in 0..16 {
             check(&mut run, &lens, strategy_index(c["strategy"].as_str().unwrap()), c["seed"].as_u64().unwrap());
@@ -304,6 +326,28 @@ fn main() {
                     check(&mut run, &lens, strategy, seed);
                 }
             }
+        }
+    }
+    // sources with error items (a malformed line of a file is an item of its source): every length
+    // vector up to a smaller bound x every strategy x two seeds x every pattern of error items
+    {
+        let long_units = tu_verif::enumerate::threshold_lengths(run.pick(8, 10)).len();
+        let many_units = tu_verif::enumerate::threshold_lengths(run.pick(6, 8)).len();
+        let small: Vec<Vec<usize>> = sequences(run.pick(3, 4), 3).into_iter().filter(|v| !v.is_empty()).collect();
+        run.bounds.insert("error_items_phase".into(), json!(format!("{} length vectors (1..=3 sources of 0..={} items) x every strategy x seeds {{0, 1}} x error-item patterns {:?}", small.len(), run.pick(2, 3), &ERR_PATTERNS[1..])));
+        for pat in 1..ERR_PATTERNS.len() {
+            if !run.unit((nunits + long_units + many_units + pat - 1) as u64) {
+                continue;
+            }
+            ERR_PATTERN.store(pat, std::sync::atomic::Ordering::Relaxed);
+            for lens in &small {
+                for strategy in 0..STRATEGIES.len() {
+                    for seed in [0u64, 1] {
+                        check(&mut run, lens, strategy, seed);
+                    }
+                }
+            }
+            ERR_PATTERN.store(0, std::sync::atomic::Ordering::Relaxed);
         }
     }
     let mut orders: Vec<Vec<usize>> = vec![];
